@@ -1,4 +1,5 @@
 CONSTANT Variant = "reciprocal22"
+CONSTANT Tier = "quick"
 INIT Init
 NEXT Next
 INVARIANT InvExpandedLaw
